@@ -36,9 +36,10 @@ const (
 	OpAtomic
 	OpBlockOn // harness-defined blocking predicate
 	OpRelease // only with Paranoid
+	OpFine    // statement-level point (only in fine mode)
 )
 
-var kindNames = [...]string{"start", "yield", "lock", "rlock", "wlock1", "wlock2", "condwait", "wgwait", "once", "recv", "send", "select", "atomic", "blockon", "release"}
+var kindNames = [...]string{"start", "yield", "lock", "rlock", "wlock1", "wlock2", "condwait", "wgwait", "once", "recv", "send", "select", "atomic", "blockon", "release", "stmt"}
 
 func (k OpKind) String() string { return kindNames[k] }
 
@@ -119,6 +120,11 @@ type Sched struct {
 	closed   map[uintptr]bool
 	Invariant func() error
 	Paranoid bool
+	// FineMode turns the statement-level points the rewriter inserted into the library code into real
+	// schedule points, so that interleavings INSIDE unprotected or wrongly protected code are explored
+	// (lock misuse, narrowed critical sections).  The state cache must be off in this mode: it assumes
+	// data-race freedom.
+	FineMode bool
 	// Nondet is set when a replayed prefix asks for a choice that does not exist.
 	Nondet string
 	enbuf  []*Thread
@@ -514,7 +520,7 @@ func here() *Sched {
 func (s *Sched) enabled(t *Thread) bool {
 	o := &t.op
 	switch o.kind {
-	case OpStart, OpYield, OpAtomic, OpRelease:
+	case OpStart, OpYield, OpAtomic, OpRelease, OpFine:
 		return true
 	case OpLock:
 		return !o.obj.(*Mutex).held
@@ -614,6 +620,19 @@ func GoNamed(name string, f func()) {
 		return
 	}
 	s.spawn(name, f, false)
+}
+
+// Fine is the statement-level point inserted by the rewriter before every statement of the rewritten
+// packages; it is a no-op unless the execution runs in fine mode.
+func Fine() {
+	s := active
+	if s == nil || !s.FineMode || s.inspect {
+		return
+	}
+	if s.aborting {
+		runtime.Goexit()
+	}
+	s.point(op{kind: OpFine})
 }
 
 // Yield is an always-enabled schedule point.
